@@ -2,24 +2,48 @@
 
 Model: lean/SaVerif/Model/Merge.lean (column-attribute core of Session._merge /
 ColumnProperty.merge: identity-map hit, Session.get, new pending instance, load=False
-path, attribute history).  Theorems: lean/SaVerif/Props/C45.lean.
+path, attribute history; the public entry point Session.merge with its pre-merge
+autoflush, Session.get's autoflush on a miss, pending Session.delete() and flush).
+Theorems: lean/SaVerif/Props/C45.lean.  Translator: gen() reads the shape of
+Session.merge (`if load: self._autoflush()`, `with self.no_autoflush:`) from the working
+tree into lean/SaVerif/Gen/MergeCfg.lean.
 
-Two streams on a real Session (autoflush off) over SQLite:
- A. flat histories (insert row / load / set / merge(load=True|False) of detached or
-    transient sources with partially loaded attributes / flush) — compared with the Lean
-    model op by op (returned values, net-change flag, number of SQL statements) and
-    checked by the oracle;
- B. object graphs Parent(id, a, children=[Child(id, c)]) with partially loaded
-    attributes and collections — oracle only.
+Two streams on a real Session over SQLite, each with the Session's autoflush option as a
+dimension (autoflush=True is the default Session; about half of the histories each):
+ A. flat histories (insert row / load / set / Session.delete of the Session's instance,
+    pending until a flush / merge(load=True|False) of detached or transient sources with
+    partially loaded attributes / flush) — compared with the Lean model op by op (returned
+    values, net-change flag, number of SELECTs, result-marked-deleted flag) and checked by
+    the oracle.  In autoflush histories merges of identities that are PENDING in the Session
+    (created by an earlier merge of a source without a row) are executed, every merge is run
+    twice (the re-merge is an operation of its own: it flushes), rows are inserted and read
+    through the Session's own connection (its transaction holds SQLite's write lock);
+ B. object graphs Parent(id, a, children=[Child(id, c)], cart=K(id, v)) with partially
+    loaded attributes and collections — oracle only.  In autoflush sessions a merge may be
+    preceded by unflushed work: pending children (Session.add of a child whose id has no
+    row, mostly ids the merged graph lists as transient children) and pending
+    Session.delete() of the Session's parent / child / cart instance.
 
 Direct oracle (never uses the model): the instance returned by merge is THE instance
 the Session holds for that identity (identity map or session.new, `is`), merging again
 returns the very same object; every attribute loaded on the source is equal on the
 result, every attribute not loaded on the source keeps the value the Session / database
 had; a second merge of an equal source changes no value, no history and creates no
-object; with load=False no statement is emitted and nothing is flagged modified; after
-flush the rows equal the merged state (graph stream: children rows point to the parent,
-children removed from the collection are detached from it).
+object; with load=False no statement is emitted (autoflush or not) and nothing is flagged
+modified; after flush the rows equal the merged state (graph stream: children rows point
+to the parent, children removed from the collection are detached from it).
+In autoflush sessions, for merge(load=True), additionally: the returned instance (and every
+cascaded one) is not in session.deleted (merge-returned-instance-marked-deleted); among ALL
+objects the Session tracks (identity map and session.new) there is one per identity after
+each merge (two-instances-one-identity), and a pending identity is found, not duplicated
+(merge-missed-pending-instance); after the final flush and commit the row of every identity
+whose last operation was a load=True merge exists and carries the merged loaded attributes
+(merged-state-not-persisted); no flush raises IntegrityError (flush-integrity-error); the
+re-merge returns the same object with the same values, emits no SELECT and creates no
+object (history flags are not compared there: the re-merge's autoflush clears them).
+With autoflush OFF the unchanged code merges onto a deleted-marked instance and makes a
+second pending instance for a pending identity: documented no-autoflush behaviour, not
+reported (such merges are skipped / not generated there).
 """
 import os
 import shutil
@@ -30,11 +54,84 @@ PID = "C45"
 LEVEL = "proof"
 LEAN = ["SaVerif.Props.C45"]
 META = {
-    "text": "Lean theorems over the merge model for ALL session states and ALL sources (any partial loading): every attribute loaded on the source is equal on the merged instance and every attribute not loaded keeps its value (merge_copies_loaded); merging an equal source again leaves the whole session state unchanged and emits no SQL (merge_idempotent; hypothesis: the first merge did not create a still-pending instance, for which the second merge is skipped by the harness - documented behaviour with autoflush off); with load=False no SQL is emitted, the database is untouched and the result carries no net change (merge_noload_no_sql_no_change), and transient / dirty-and-absent sources are rejected (merge_noload_rejects); the returned instance carries the source's full identity key, identity token included (merge_keeps_identity, merge_noload_keeps_identity). Tied to orm/session.py, properties.py by a differential run (values, net-change flag, SQL statement count per merge); identity of the returned instance, idempotence, graph cascades and flushed rows are re-checked on the real objects by an independent oracle.",
-    "note": "Trusted: Lean kernel; correspondence; SQLite. In the model the identity map is a function of the primary key, so 'the single instance' is by construction there: object identity (`is`) is established only by the oracle on the real objects. Relationship cascade of merge is covered by the oracle stream only (not modelled in Lean). autoflush is off; sources always carry a full primary key. Fixture classes define __len__/__bool__ (falsy instances) and value __eq__/__hash__ (equal-but-distinct instances). merge(load=False) of token-carrying sources is exercised since fix 92da004 (state.identity_token set from the key); the oracle key merge-noload-identity-token-not-set-on-state guards it.",
-    "technique": "Lean 4 proofs over a merge model + differential correspondence incl. SQL statement counts + direct oracle on real object graphs",
+    "text": "Lean theorems over the merge model for ALL session states and ALL sources (any partial loading): every attribute loaded on the source is equal on the merged instance and every attribute not loaded keeps its value (merge_copies_loaded); merging an equal source again leaves the whole session state unchanged and emits no SQL (merge_idempotent); with load=False no SQL is emitted, the database is untouched, the result carries no net change and nothing is flushed whatever the Session's autoflush option (merge_noload_no_sql_no_change, merge_noload_no_flush), transient / dirty-and-absent sources are rejected (merge_noload_rejects); the returned instance carries the source's full identity key, identity token included (merge_keeps_identity, merge_noload_keeps_identity). Public entry point Session.merge in an autoflush Session, for all states incl. pending instances and pending Session.delete(): the regenerated guard of the pre-merge flush is exactly `if load:` and _merge runs under no_autoflush (merge_autoflush_guard_is_load, merge_body_under_no_autoflush, decided against the table the translator reads from orm/session.py), hence merge = flush-then-merge (merge_autoflush_eq_flush_then_merge); the returned instance is never marked deleted and carries the source's loaded attributes (merge_autoflush_result_live), a deleted-marked identity is re-created as a new pending instance (merge_autoflush_after_delete_creates), a pending identity is found - nothing pending afterwards, not new, no SELECT (merge_autoflush_finds_pending); after the next flush the row exists and carries the merged attributes (merge_autoflush_persisted with the hypothesis that a surviving instance mirrors its row; unconditional after a pending delete and for a pending identity: _after_delete, _pending; the hypothesis is necessary: merge_persisted_needs_sync_counterexample, a load=False stamp). Tied to orm/session.py, properties.py by a differential run in sessions with autoflush on and off (values, net-change flag, SELECT count, result-marked-deleted per merge; Session.delete, flush, Session.get); identity of the returned instance over everything the session tracks, idempotence, graph cascades with pending children / pending deletes, and flushed rows are re-checked on the real objects by an independent oracle.",
+    "note": "Trusted: Lean kernel; correspondence; SQLite. In the model the identity map is a function of the primary key, so 'the single instance' is by construction there: object identity (`is`) is established only by the oracle on the real objects (identity map and session.new). Relationship cascade of merge is covered by the oracle stream only (not modelled in Lean). Sessions are created with autoflush on and off; sources always carry a full primary key. With autoflush off merging an identity that is pending or marked deleted is the documented no-autoflush behaviour (second pending instance / merge onto the doomed instance) and is not reported; the autoflush oracle clauses apply to autoflush=True sessions only. merge_autoflush_persisted is partial in the _partial sense: it carries the SyncedRow hypothesis, with merge_persisted_needs_sync_counterexample as witness that it cannot be dropped (load=False asserts state without looking; the oracle excludes such identities and rows held under several identity tokens in the same way). A pending instance carries no identity token: a token-carrying source merged onto a fresh pending instance is re-merged beside it (not compared). The harness never flushes two modified instances of one row and skips operations on an identity while another token's instance of the same primary key is marked deleted. Graph stream: a child that is Session.delete()d is also taken out of its parent's loaded collection (by identity), as applications do: left in, the fixture's value equality makes list.remove() drop the equal new instance later (collection semantics, not merge). Fixture classes define __len__/__bool__ (falsy instances) and value __eq__/__hash__ (equal-but-distinct instances). merge(load=False) of token-carrying sources is exercised since fix 92da004 (state.identity_token set from the key); the oracle key merge-noload-identity-token-not-set-on-state guards it.",
+    "technique": "Lean 4 proofs over a merge model with autoflush / pending deletes + translator of Session.merge's entry shape + differential correspondence incl. SELECT counts + direct oracle on real object graphs with unflushed session state",
     "design_ref": "DESIGN.md §3 C45",
 }
+
+
+def _merge_entry_shape(path=None):
+    """(guard_is_load, body_under_no_autoflush) of Session.merge in the repository's CURRENT
+    orm/session.py, or (None, None) when the method does not have the expected shape:
+    one `if <test>: self._autoflush()` followed by `with self.no_autoflush: return self._merge(...)`"""
+    import ast
+
+    from harness import vlib
+
+    path = path or os.path.join(vlib.REPO, "lib", "sqlalchemy", "orm", "session.py")
+    tree = ast.parse(open(path).read())
+    fn = None
+    for node in ast.walk(tree):
+        if isinstance(node, ast.ClassDef) and node.name == "Session":
+            for sub in node.body:
+                if isinstance(sub, ast.FunctionDef) and sub.name == "merge":
+                    fn = sub
+    if fn is None:
+        return None, None
+
+    def is_self_call(n, name):
+        return (isinstance(n, ast.Call) and isinstance(n.func, ast.Attribute) and n.func.attr == name
+                and isinstance(n.func.value, ast.Name) and n.func.value.id == "self")
+
+    guards = []
+    for node in ast.walk(fn):
+        if isinstance(node, ast.If) and any(is_self_call(c, "_autoflush") for st in node.body for c in ast.walk(st)):
+            guards.append(node)
+    # every _autoflush() call of the method must sit under that one guard
+    ncalls = sum(1 for c in ast.walk(fn) if is_self_call(c, "_autoflush"))
+    if len(guards) != 1 or ncalls != 1:
+        return None, None
+    g = guards[0]
+    guard_is_load = (isinstance(g.test, ast.Name) and g.test.id == "load" and not g.orelse
+                     and len(g.body) == 1 and isinstance(g.body[0], ast.Expr) and is_self_call(g.body[0].value, "_autoflush")
+                     and g in fn.body)
+    under = None
+    merges = [c for c in ast.walk(fn) if is_self_call(c, "_merge")]
+    if len(merges) == 1:
+        under = False
+        for node in fn.body:
+            if isinstance(node, ast.With) and any(c is merges[0] for c in ast.walk(node)):
+                ce = [it.context_expr for it in node.items]
+                under = (len(ce) == 1 and isinstance(ce[0], ast.Attribute) and ce[0].attr == "no_autoflush"
+                         and isinstance(ce[0].value, ast.Name) and ce[0].value.id == "self"
+                         and fn.body.index(node) > fn.body.index(g) if g in fn.body else False)
+    return guard_is_load, under
+
+
+def gen(ctx):
+    """Translator: the shape of the public entry point Session.merge (orm/session.py) ->
+    lean/SaVerif/Gen/MergeCfg.lean"""
+    guard, under = _merge_entry_shape()
+    ctx.obligation(
+        "translator: orm/session.py Session.merge has one `if ...: self._autoflush()` and one `self._merge(...)` call",
+        guard is not None and under is not None,
+        "Session.merge has another shape; the model's mergeAf cannot be regenerated",
+    )
+    if guard is None or under is None:
+        return
+    ctx.write_gen(
+        "MergeCfg",
+        "namespace SaVerif.Gen.MergeCfg\n"
+        "/-- orm/session.py `Session.merge` (public entry point): the statement guarding the\n"
+        "    pre-merge `self._autoflush()` is exactly `if load:` (true), or carries some other /\n"
+        "    additional condition (false) -/\n"
+        "def mergeAutoflushGuardIsLoad : Bool := %s\n"
+        "/-- `Session.merge` calls `self._merge(...)` inside `with self.no_autoflush:` -/\n"
+        "def mergeBodyUnderNoAutoflush : Bool := %s\n"
+        "end SaVerif.Gen.MergeCfg\n" % ("true" if guard else "false", "true" if under else "false"),
+    )
+
 
 _W = None
 _TMP = None
@@ -121,11 +218,14 @@ class World:
         self.T, self.P, self.C, self.K = T, P, C, K
         Base.metadata.drop_all(self.engine)
         Base.metadata.create_all(self.engine)
-        self.nsql = 0
+        self.nsql = 0  # all statements
+        self.nsel = 0  # SELECTs
 
         @event.listens_for(self.engine, "before_cursor_execute")
         def count(conn, cursor, statement, parameters, context, executemany):
             self.nsql += 1
+            if statement.lstrip()[:6].upper() == "SELECT":
+                self.nsel += 1
 
     def reset(self):
         with self.engine.begin() as c:
@@ -186,18 +286,23 @@ def make_source(T, spec, **extra):
 
 @guarded
 def run_flat(case):
+    """one flat history on a real Session(autoflush=case['af']).
+    returns (line, problems, executed ops incl. the explicit re-merges, final flush done)"""
     from sqlalchemy import inspect
-    from sqlalchemy.exc import InvalidRequestError
+    from sqlalchemy.exc import IntegrityError, InvalidRequestError
     from sqlalchemy.orm import Session
 
     w = world()
     w.reset()
     T = w.T
     n, ops = case["n"], case["ops"]
-    sess = Session(w.engine, autoflush=False, expire_on_commit=False)
+    af = int(case.get("af", 0))
+    sess = Session(w.engine, autoflush=bool(af), expire_on_commit=False)
     keep = []
     noload_pks = set()  # load=False asserts the source IS the database state: not comparable afterwards
-    outs, problems = [], []
+    last_merge = {}  # af=1: pk -> source spec of the load=True merge that was the last operation on that pk
+    multi_pks = set()  # rows that had several instances (identity tokens) in the Session: they rewrite each other's row
+    outs, problems, xops = [], [], []
     final_flush = 1
 
     def ident(k, t=0):
@@ -209,13 +314,24 @@ def run_flat(case):
     def pending(k):
         return [o for o in sess.new if isinstance(o, T) and o.__dict__.get("id") == k]
 
+    def other_doomed(k, t):
+        """an instance of the same primary key under another token is marked deleted"""
+        return any(u != t and ident(k, u) is not None and ident(k, u) in sess.deleted for u in range(3))
+
     def dbrows():
+        # autoflush on: the Session's transaction may hold SQLite's write lock and unflushed
+        # rows: read (and insert) through the Session's own connection
+        if af:
+            return {r[0]: (r[1], r[2]) for r in sess.connection().exec_driver_sql("select id, a, b from t")}
         with w.engine.connect() as c:
             return {r[0]: (r[1], r[2]) for r in c.exec_driver_sql("select id, a, b from t")}
 
+    def tracked():
+        return list(sess.identity_map.values()) + list(sess.new)
+
     def snapshot():
         snap = {}
-        for o in list(sess.identity_map.values()) + list(sess.new):
+        for o in tracked():
             st = inspect(o)
             snap[(o.__dict__.get("id"), st.identity_token, st.pending)] = (
                 id(o), o.__dict__.get("a", "N"), o.__dict__.get("b", "N"), sess.is_modified(o), tuple(sorted(st.committed_state)))
@@ -232,7 +348,132 @@ def run_flat(case):
             per[o.__dict__.get("id")] = per.get(o.__dict__.get("id"), 0) + 1
         return any(v > 1 for v in per.values())
 
+    def one_instance_per_identity(where):
+        """autoflush on: everything the Session tracks (identity map and pending), per identity
+        (primary key, identity token; a pending instance will get token None)"""
+        per = {}
+        for o in tracked():
+            if isinstance(o, T):
+                st = inspect(o)
+                key = (o.__dict__.get("id") if st.key is None else st.key[1][0], None if st.key is None else st.key[2])
+                per.setdefault(key, []).append(o)
+        for key, objs in per.items():
+            if len({id(o) for o in objs}) > 1:
+                problems.append(("two-instances-one-identity", "%s: the session tracks %d distinct objects for T pk %s token %r (%s)"
+                                 % (where, len(objs), key[0], key[1], ["pending" if inspect(o).pending else "persistent" for o in objs])))
+
+    def do_merge(load, spec, first):
+        """first: the result of the first merge of this source when this is the explicit
+        re-merge of an autoflush history, else None.  Returns the result (or None)."""
+        k, t = spec["pk"], spec.get("tok", 0)
+        pend = pending(k)
+        before_obj = ident(k, t)
+        doomed = before_obj is not None and before_obj in sess.deleted
+        before_vals = None if before_obj is None else {x: before_obj.__dict__.get(x, "N") for x in ("a", "b")}
+        pend_vals = None if not pend else {x: pend[0].__dict__.get(x, "N") for x in ("a", "b")}
+        others_modified = any(u != t and ident(k, u) is not None and sess.is_modified(ident(k, u)) for u in range(3))
+        row = dbrows().get(k)
+        before_ids = {id(o) for o in tracked()}
+        src = make_source(T, spec)
+        q0, s0 = w.nsql, w.nsel
+        try:
+            m = sess.merge(src, load=bool(load))
+        except InvalidRequestError:
+            outs.append("E")
+            if load:
+                problems.append(("merge-rejected", "load=True merge raised InvalidRequestError for %s" % (spec,)))
+            return None
+        # autoflush on, load=True: the pre-merge flush legitimately emits INSERT/UPDATE/DELETE;
+        # what is bounded is the number of SELECTs.  Otherwise: every statement counts.
+        q = (w.nsel - s0) if (af and load) else (w.nsql - q0)
+        keep.append(m)
+        st = inspect(m)
+        isnew = st.pending if load else (before_obj is None)
+        dirty = True if st.pending else sess.is_modified(m)
+        mtok = 0 if st.pending else TOK.index(st.key[2])
+        gone = (not st.pending) and m in sess.deleted
+        outs.append("M%d:%d:%s:%s:%d:%d:%d" % (1 if isnew else 0, mtok, nz(m.__dict__.get("a", "N")), nz(m.__dict__.get("b", "N")), 1 if dirty else 0, q, 1 if gone else 0))
+        # ------------------------------------------------ oracle
+        flushes = bool(af and load)  # Session.merge is documented to flush first here
+        if st.pending:
+            if not any(p is m for p in pending(k)):
+                problems.append(("merged-instance-not-in-session", "pk %d" % k))
+        else:
+            if spec["persistent"] and st.key != inspect(src).key:
+                problems.append(("merge-returned-instance-of-another-identity",
+                                 "source key %s, merge returned the instance with key %s" % (inspect(src).key[1:], st.key[1:])))
+            if sess.identity_map.get(st.key) is not m:
+                problems.append(("merge-returned-other-instance", "pk %d: merge returned an object that is not the identity map's" % k))
+        if flushes:
+            if m in sess.deleted:
+                problems.append(("merge-returned-instance-marked-deleted",
+                                 "pk %d token %s: autoflush session, the instance merge(load=True) returned is in session.deleted (%s)"
+                                 % (k, TOK[t], "the instance that was marked before the merge" if m is before_obj else "another one")))
+            if pend and t == 0 and m is not pend[0]:
+                problems.append(("merge-missed-pending-instance", "pk %d: the identity was pending in the autoflush session, merge returned another object" % k))
+            one_instance_per_identity("after merge of pk %d" % k)
+        if before_obj is not None and m is not before_obj and not (flushes and doomed):
+            problems.append(("merge-replaced-existing-instance", "pk %d token %s" % (k, TOK[t])))
+        if m is src:
+            problems.append(("merge-returned-source", "pk %d" % k))
+        for x in ("a", "b"):
+            sv = spec["attrs"].get(x)
+            got = nz(m.__dict__.get(x, "N"))
+            if sv is not None:
+                if got != sv:
+                    problems.append(("merge-did-not-copy-loaded-attribute", "%s: source %s, merged %s" % (x, sv, got)))
+            else:
+                if flushes and doomed:
+                    exp = "N"  # flushed away; re-created from the source alone
+                elif flushes and pend:
+                    # flushed: the pending instance itself (token None), or a fresh load of its row
+                    exp = nz(pend_vals[x]) if t == 0 else nz(None if pend_vals[x] == "N" else pend_vals[x])
+                elif before_vals is not None:
+                    exp = nz(before_vals[x])
+                elif flushes and others_modified:
+                    exp = None  # the row read before the merge is rewritten by the autoflush: not predicted here (the model is)
+                elif row is not None and load:
+                    exp = nz(row[0 if x == "a" else 1])
+                else:
+                    exp = "N"
+                if exp is not None and got != exp:
+                    problems.append(("merge-touched-unloaded-attribute", "%s: expected %s, merged has %s" % (x, exp, got)))
+        if load:
+            if af:
+                last_merge[k] = spec
+        else:
+            last_merge.pop(k, None)
+            noload_pks.add(k)
+            if not st.pending and st.identity_token != st.key[2]:
+                problems.append(("merge-noload-identity-token-not-set-on-state",
+                                 "merge(load=False) returned an instance with key token %r but state.identity_token %r: the next flush re-keys it"
+                                 % (st.key[2], st.identity_token)))
+            if q:
+                problems.append(("merge-noload-emitted-sql", "%d statements" % q))
+            if sess.is_modified(m) or m in sess.dirty:
+                problems.append(("merge-noload-flagged-change", "pk %d" % k))
+        if first is not None:
+            # explicit re-merge in an autoflush history.  Its autoflush writes the first merge's
+            # changes, so history flags legitimately differ: compare object identity and values.
+            # A first result that was pending under a token-carrying source key becomes
+            # persistent under token None (pending instances carry no token): the re-merge then
+            # loads the source's own identity beside it - not compared.
+            fm, fvals, fpending = first
+            if not (fpending and t != 0):
+                if m is not fm:
+                    problems.append(("second-merge-other-instance", "pk %d" % k))
+                elif (m.__dict__.get("a", "N"), m.__dict__.get("b", "N")) != fvals:
+                    problems.append(("merge-not-idempotent", "pk %d: values %s after the first merge, %s after the second"
+                                     % (k, fvals, (m.__dict__.get("a", "N"), m.__dict__.get("b", "N")))))
+                if q:
+                    problems.append(("second-merge-emitted-sql", "%d statements" % q))
+                made = {id(o) for o in tracked()} - before_ids
+                if made:
+                    problems.append(("second-merge-created-object", "pk %d: %d new objects" % (k, len(made))))
+        return m, (m.__dict__.get("a", "N"), m.__dict__.get("b", "N")), st.pending
+
     final = {}
+    line = None
     try:
         with warnings.catch_warnings():
             warnings.simplefilter("ignore")
@@ -241,21 +482,42 @@ def run_flat(case):
                 if kind == "ins":
                     k = op[1]
                     if not any_ident(k) and not pending(k) and k not in dbrows():
-                        with w.engine.begin() as c:
-                            c.exec_driver_sql("insert into t (id, a, b) values (?, ?, ?)", (k, op[2], op[3]))
+                        if af:
+                            sess.connection().exec_driver_sql("insert into t (id, a, b) values (?, ?, ?)", (k, op[2], op[3]))
+                        else:
+                            with w.engine.begin() as c:
+                                c.exec_driver_sql("insert into t (id, a, b) values (?, ?, ?)", (k, op[2], op[3]))
                     outs.append(".")
+                    xops.append(op)
                 elif kind == "load":
                     k, t = op[1], op[2]
-                    if not pending(k) and ident(k, t) is None:
+                    # Session.get autoflushes on an identity-map miss
+                    if ident(k, t) is None and not other_doomed(k, t) and (af or not pending(k)):
+                        if af and flush_conflict():
+                            final_flush = 0
+                            break
                         o = sess.get(T, k, identity_token=TOK[t])
                         if o is not None:
                             keep.append(o)
                     outs.append(".")
+                    xops.append(op)
                 elif kind == "set":
                     o = ident(op[1], op[2])
                     if o is not None:
                         setattr(o, "b" if op[3] else "a", op[4])
+                        last_merge.pop(op[1], None)
                     outs.append(".")
+                    xops.append(op)
+                elif kind == "del":
+                    k, t = op[1], op[2]
+                    o = ident(k, t)
+                    # only when it is the one object the Session tracks for that primary key
+                    if o is not None and not pending(k) and all(u == t or ident(k, u) is None for u in range(3)):
+                        sess.delete(o)
+                        keep.append(o)
+                        last_merge.pop(k, None)
+                    outs.append(".")
+                    xops.append(op)
                 elif kind == "flush":
                     if flush_conflict():
                         final_flush = 0
@@ -263,73 +525,35 @@ def run_flat(case):
                     sess.flush()
                     sess.commit()
                     outs.append(".")
+                    xops.append(op)
                 elif kind == "m":
                     load, spec = op[1], op[2]
                     k, t = spec["pk"], spec.get("tok", 0)
-                    if pending(k):
+                    # autoflush off: a pending identity cannot be found by merge (documented: a
+                    # second pending instance); load=False never flushes
+                    if other_doomed(k, t) or (pending(k) and not (af and load)):
                         outs.append(".")
+                        xops.append(op)
                         continue
-                    before_obj = ident(k, t)
-                    before_vals = None if before_obj is None else {x: before_obj.__dict__.get(x, "N") for x in ("a", "b")}
-                    row = dbrows().get(k)
-                    src = make_source(T, spec)
-                    q0 = w.nsql
-                    try:
-                        m = sess.merge(src, load=bool(load))
-                    except InvalidRequestError:
-                        outs.append("E")
-                        if load:
-                            problems.append(("merge-rejected", "load=True merge raised InvalidRequestError for %s" % (spec,)))
+                    if af and load and flush_conflict():
+                        final_flush = 0
+                        break
+                    res = do_merge(load, spec, None)
+                    xops.append(op)
+                    if res is None:
                         continue
-                    q = w.nsql - q0
-                    keep.append(m)
-                    st = inspect(m)
-                    isnew = st.pending if load else (before_obj is None)
-                    dirty = True if st.pending else sess.is_modified(m)
-                    mtok = 0 if st.pending else TOK.index(st.key[2])
-                    outs.append("M%d:%d:%s:%s:%d:%d" % (1 if isnew else 0, mtok, nz(m.__dict__.get("a", "N")), nz(m.__dict__.get("b", "N")), 1 if dirty else 0, q))
-                    # ------------------------------------------------ oracle
-                    if st.pending:
-                        if not any(p is m for p in pending(k)):
-                            problems.append(("merged-instance-not-in-session", "pk %d" % k))
-                    else:
-                        if spec["persistent"] and st.key != inspect(src).key:
-                            problems.append(("merge-returned-instance-of-another-identity",
-                                             "source key %s, merge returned the instance with key %s" % (inspect(src).key[1:], st.key[1:])))
-                        if sess.identity_map.get(st.key) is not m:
-                            problems.append(("merge-returned-other-instance", "pk %d: merge returned an object that is not the identity map's" % k))
-                    if before_obj is not None and m is not before_obj:
-                        problems.append(("merge-replaced-existing-instance", "pk %d token %s" % (k, TOK[t])))
-                    if m is src:
-                        problems.append(("merge-returned-source", "pk %d" % k))
-                    for x in ("a", "b"):
-                        sv = spec["attrs"].get(x)
-                        got = nz(m.__dict__.get(x, "N"))
-                        if sv is not None:
-                            if got != sv:
-                                problems.append(("merge-did-not-copy-loaded-attribute", "%s: source %s, merged %s" % (x, sv, got)))
-                        else:
-                            if before_vals is not None:
-                                exp = nz(before_vals[x])
-                            elif row is not None and load:
-                                exp = nz(row[0 if x == "a" else 1])
-                            else:
-                                exp = "N"
-                            if got != exp:
-                                problems.append(("merge-touched-unloaded-attribute", "%s: expected %s, merged has %s" % (x, exp, got)))
-                    if not load:
-                        noload_pks.add(k)
-                        if not st.pending and st.identity_token != st.key[2]:
-                            problems.append(("merge-noload-identity-token-not-set-on-state",
-                                             "merge(load=False) returned an instance with key token %r but state.identity_token %r: the next flush re-keys it"
-                                             % (st.key[2], st.identity_token)))
-                        if q:
-                            problems.append(("merge-noload-emitted-sql", "%d statements" % q))
-                        if sess.is_modified(m) or m in sess.dirty:
-                            problems.append(("merge-noload-flagged-change", "pk %d" % k))
-                    # idempotence: an equal source again (not on still-pending results: with
-                    # autoflush off a second merge cannot find a pending instance)
-                    if not st.pending:
+                    m, _, _ = res
+                    if af:
+                        # idempotence, autoflush on: the re-merge is an operation of its own (it
+                        # flushes what the first merge changed), also run by the model
+                        if load and flush_conflict():
+                            final_flush = 0
+                            break
+                        do_merge(load, spec, res)
+                        xops.append(op)
+                    elif not inspect(m).pending:
+                        # idempotence, autoflush off: an equal source again (not on still-pending
+                        # results: a second merge cannot find a pending instance)
                         snap = snapshot()
                         q1 = w.nsql
                         try:
@@ -346,11 +570,15 @@ def run_flat(case):
                                 problems.append(("second-merge-emitted-sql", "%d statements" % (w.nsql - q1)))
                 else:
                     raise ValueError(op)
+                for k in range(n):
+                    if sum(1 for t in range(3) if ident(k, t) is not None) > 1:
+                        multi_pks.add(k)
             if final_flush and flush_conflict():
                 final_flush = 0
             if final_flush:
                 sess.flush()
                 sess.commit()
+            # (an autoflush history that ended early: what the Session's transaction sees)
             final = dbrows()
             if final_flush:
                 # after the final flush every session object equals its row
@@ -361,25 +589,49 @@ def run_flat(case):
                             # several instances of one row (different tokens): only the one flushed last matches
                             if sum(1 for t in range(3) if ident(oid, t) is not None) == 1:
                                 problems.append(("flushed-row-differs-from-merged-state", "pk %d: object %s row %s" % (oid, (o.a, o.b), final.get(oid))))
+                # autoflush on: what merge(load=True) merged last into an identity is in the database
+                # (the instance has to mirror its row, cf. SyncedRow in Props/C45.lean: not after a
+                # load=False stamp, not when a second instance of the row exists under another token)
+                for k, spec in sorted(last_merge.items()):
+                    if k in noload_pks or k in multi_pks:
+                        continue
+                    r = final.get(k)
+                    want = {x: v for x, v in spec["attrs"].items() if v is not None}
+                    if r is None:
+                        problems.append(("merged-state-not-persisted", "pk %d: merged last with %s, after flush and commit there is no row" % (k, want)))
+                    elif any(r[0 if x == "a" else 1] != v for x, v in want.items()):
+                        problems.append(("merged-state-not-persisted", "pk %d: merged last with %s, row is %s" % (k, want, r)))
+    except IntegrityError as e:
+        if not af:
+            raise
+        problems.append(("flush-integrity-error", "autoflush session: %s" % str(e.orig)[:120]))
+        line = "crash:IntegrityError"
     finally:
         try:
             sess.close()
         except Exception:
             pass
-    line = ";".join(outs) + " | " + " ".join("%d=%s/%s" % (k, nz(final[k][0]), nz(final[k][1])) for k in sorted(final) if k < n)
-    return line, problems, len(outs), final_flush
+    if line is None:
+        line = ";".join(outs) + " | " + " ".join("%d=%s/%s" % (k, nz(final[k][0]), nz(final[k][1])) for k in sorted(final) if k < n)
+    return line, problems, xops, final_flush
 
 
 @guarded
 def run_graph(case):
-    """oracle-only stream: merge of Parent/children graphs"""
+    """oracle-only stream: merge of Parent/children/cart graphs into a Session(autoflush=case['af']).
+    In autoflush sessions each graph may come with unflushed work done just before its merge
+    (g["pre"]): pending children (`padd`: Session.add of a child whose id has no row) and pending
+    deletes (`pdel`: Session.delete of the Session's parent / child / cart instance)."""
     from sqlalchemy import inspect
+    from sqlalchemy.exc import IntegrityError
     from sqlalchemy.orm import Session, make_transient_to_detached
 
     w = world()
     w.reset()
     P, C, K = w.P, w.C, w.K
+    cls_of = {"P": P, "C": C, "K": K}
     problems = []
+    af = int(case.get("af", 0))
     with w.engine.begin() as c:
         for kid, v in case.get("dbk", {}).items():
             c.exec_driver_sql("insert into k (id, v) values (?, ?)", (kid, v))
@@ -387,9 +639,31 @@ def run_graph(case):
             c.exec_driver_sql("insert into p (id, a, kid) values (?, ?, ?)", (pid, a, case.get("dbpk", {}).get(pid)))
         for cid, (pp, cv) in case["dbc"].items():
             c.exec_driver_sql("insert into c (id, pid, c) values (?, ?, ?)", (cid, pp, cv))
-    sess = Session(w.engine, autoflush=False, expire_on_commit=False)
+    sess = Session(w.engine, autoflush=bool(af), expire_on_commit=False)
     keep = []
     kw_cart_holder = {}
+
+    def tracked():
+        return list(sess.identity_map.values()) + list(sess.new)
+
+    def oid(o):
+        st = inspect(o)
+        return o.__dict__.get("id") if st.key is None else st.key[1][0]
+
+    def one_instance_per_identity(where):
+        per = {}
+        for o in tracked():
+            per.setdefault((type(o).__name__, oid(o)), {})[id(o)] = o
+        for key, objs in sorted(per.items()):
+            if len(objs) > 1:
+                problems.append(("two-instances-one-identity", "%s: the session tracks %d distinct %s objects with id %s (%s)"
+                                 % (where, len(objs), key[0], key[1], sorted("pending" if inspect(o).pending else "persistent" for o in objs.values()))))
+
+    def valsnap():
+        """autoflush sessions: identity and column values of everything tracked (foreign keys
+        are written by the flush, history flags are cleared by it: not compared)"""
+        return sorted((type(o).__name__, oid(o), id(o), tuple(sorted((k, v) for k, v in o.__dict__.items() if k in ("a", "c", "v")))) for o in tracked())
+
     try:
         with warnings.catch_warnings():
             warnings.simplefilter("ignore")
@@ -398,6 +672,8 @@ def run_graph(case):
                 if o is not None:
                     keep.append(o)
                     keep.extend(o.children)
+                    if af and o.cart is not None:
+                        keep.append(o.cart)
             for g in case["graphs"]:
                 def build():
                     kids = None
@@ -429,13 +705,61 @@ def run_graph(case):
                     kw_cart_holder["src"] = kw.get("cart")
                     return po
 
+                # ---- unflushed work in the Session before this merge (autoflush sessions only)
+                pend_kids = {}
+                for pre in (g.get("pre") or []) if af else []:
+                    if pre[0] == "padd":
+                        cid = pre[1]
+                        known = any(isinstance(o, C) and oid(o) == cid for o in tracked())
+                        if not known and sess.connection().exec_driver_sql("select count(*) from c where id = ?", (cid,)).scalar() == 0:
+                            co = C(id=cid, c=pre[2])
+                            sess.add(co)
+                            keep.append(co)
+                            pend_kids[cid] = co
+                    elif pre[0] == "pdel":
+                        o = sess.identity_map.get(inspect(cls_of[pre[1]]).identity_key_from_primary_key((pre[2],)))
+                        if o is not None:
+                            if pre[1] == "C":
+                                # as an application does: a deleted child is taken out of its parent's
+                                # loaded collection as well (by identity).  Left in, it lingers there
+                                # after the flush, and replacing the collection later removes - through
+                                # the backref, with list.remove(), i.e. by the fixture's value equality
+                                # - the equal NEW instance merge creates for the same row: collection
+                                # semantics, not merge's business
+                                for par in tracked():
+                                    if isinstance(par, P) and "children" in par.__dict__:
+                                        for i, x in enumerate(list(par.__dict__["children"])):
+                                            if x is o:
+                                                del par.children[i]
+                                                break
+                            sess.delete(o)
+                            keep.append(o)
+                    else:
+                        raise ValueError(pre)
+
                 before = sess.identity_map.get(inspect(P).identity_key_from_primary_key((g["pk"],)))
+                doomed = before is not None and before in sess.deleted
                 load = bool(g.get("load", 1))
+                flushes = bool(af and load)  # Session.merge is documented to flush first here
                 q0 = w.nsql
                 m = sess.merge(build(), load=load)
                 keep.append(m)
                 if not load and w.nsql != q0:
                     problems.append(("merge-noload-emitted-sql", "%d statements" % (w.nsql - q0)))
+                if flushes:
+                    if m in sess.deleted:
+                        problems.append(("merge-returned-instance-marked-deleted",
+                                         "parent %d: autoflush session, the instance merge(load=True) returned is in session.deleted" % g["pk"]))
+                    for x in ([m.__dict__.get("cart")] if isinstance(g.get("cart"), dict) else []) + (list(m.children) if g["kids"] is not None else []):
+                        if x is not None and x in sess.deleted:
+                            problems.append(("merge-returned-instance-marked-deleted",
+                                             "parent %d: cascaded merge landed on %s %s, which is in session.deleted" % (g["pk"], type(x).__name__, oid(x))))
+                    one_instance_per_identity("after merge of parent %d" % g["pk"])
+                    if g["kids"] is not None:
+                        for c in m.children:
+                            if c.id in pend_kids and c is not pend_kids[c.id]:
+                                problems.append(("merge-missed-pending-instance",
+                                                 "parent %d: child %d was pending in the autoflush session, the cascaded merge made another object" % (g["pk"], c.id)))
                 cart = g.get("cart")
                 if cart == "null":
                     if m.cart is not None:
@@ -455,7 +779,7 @@ def run_graph(case):
                         held = sess.identity_map.get(inspect(K).identity_key_from_primary_key((cart["pk"],)))
                         if held is not None and held is not mc:
                             problems.append(("two-instances-one-identity", "cart %d" % cart["pk"]))
-                if before is not None and m is not before:
+                if before is not None and m is not before and not (flushes and doomed):
                     problems.append(("merge-replaced-existing-instance", "parent %d" % g["pk"]))
                 if g["a"] is not None and m.a != g["a"]:
                     problems.append(("merge-did-not-copy-loaded-attribute", "parent %d a" % g["pk"]))
@@ -476,11 +800,24 @@ def run_graph(case):
                     for c in m.children:
                         if byid.setdefault(c.id, c) is not c:
                             problems.append(("two-instances-one-identity", "child %d" % c.id))
-                # idempotence (when nothing of the graph is still pending)
                 allobjs = [m] + (list(m.children) if g["kids"] is not None else [])
                 if m.__dict__.get("cart") is not None:
                     allobjs.append(m.__dict__["cart"])
-                if not any(inspect(o).pending for o in allobjs):
+                if flushes:
+                    # idempotence, autoflush on: the re-merge first flushes what the first merge
+                    # changed (pending results become persistent and must be FOUND), so history flags
+                    # and foreign-key columns legitimately differ: compare objects and values
+                    snap = valsnap()
+                    kidsnap = [id(c) for c in m.children] if g["kids"] is not None else None
+                    m2 = sess.merge(build(), load=load)
+                    if m2 is not m:
+                        problems.append(("second-merge-other-instance", "parent %d" % g["pk"]))
+                    one_instance_per_identity("after second merge of parent %d" % g["pk"])
+                    # (the identity map is weak: an object nobody refers to any more may leave it)
+                    if not set(valsnap()) <= set(snap) or (kidsnap is not None and [id(c) for c in m2.children] != kidsnap):
+                        problems.append(("merge-not-idempotent", "parent %d: tracked objects / values before the second merge %s, after %s" % (g["pk"], snap, valsnap())))
+                elif not any(inspect(o).pending for o in allobjs):
+                    # idempotence (when nothing of the graph is still pending)
                     snap = sorted((type(o).__name__, o.id, id(o), tuple(sorted((k, v) for k, v in o.__dict__.items() if k in ("a", "c", "pid", "v", "kid"))),
                                    sess.is_modified(o)) for o in list(sess.identity_map.values()) + list(sess.new))
                     kidsnap = [id(c) for c in m.children] if g["kids"] is not None else None
@@ -500,23 +837,34 @@ def run_graph(case):
                     prow = {r[0]: r[1] for r in c.exec_driver_sql("select id, a from p")}
                     pk_kid = {r[0]: r[1] for r in c.exec_driver_sql("select id, kid from p")}
                     krow = {r[0]: r[1] for r in c.exec_driver_sql("select id, v from k")}
+                missing = "merged-state-not-persisted" if af else "flushed-row-differs-from-merged-state"
                 if cart == "null" and pk_kid.get(g["pk"]) is not None:
                     problems.append(("flushed-row-differs-from-merged-state", "parent %d kid %s, merged cart None" % (g["pk"], pk_kid.get(g["pk"]))))
                 if isinstance(cart, dict):
                     if pk_kid.get(g["pk"]) != cart["pk"]:
                         problems.append(("flushed-row-differs-from-merged-state", "parent %d kid %s, source cart %d" % (g["pk"], pk_kid.get(g["pk"]), cart["pk"])))
-                    if cart["pk"] not in krow or (cart["v"] is not None and krow[cart["pk"]] != cart["v"]):
+                    if cart["pk"] not in krow:
+                        problems.append((missing, "cart %d: no row after flush and commit" % cart["pk"]))
+                    elif cart["v"] is not None and krow[cart["pk"]] != cart["v"]:
                         problems.append(("flushed-row-differs-from-merged-state", "cart %d row %s" % (cart["pk"], krow.get(cart["pk"]))))
-                if g["pk"] not in prow or (g["a"] is not None and prow[g["pk"]] != g["a"]):
+                if g["pk"] not in prow:
+                    problems.append((missing, "parent %d: no row after flush and commit" % g["pk"]))
+                elif g["a"] is not None and prow[g["pk"]] != g["a"]:
                     problems.append(("flushed-row-differs-from-merged-state", "parent %d row %s" % (g["pk"], prow.get(g["pk"]))))
                 if g["kids"] is not None:
                     want = {ck["pk"] for ck in g["kids"]}
-                    for cid in want:
-                        if cid not in rows or rows[cid][0] != g["pk"]:
+                    for cid in sorted(want):
+                        if cid not in rows:
+                            problems.append((missing, "child %d of parent %d: no row after flush and commit" % (cid, g["pk"])))
+                        elif rows[cid][0] != g["pk"]:
                             problems.append(("flushed-row-differs-from-merged-state", "child %d should belong to parent %d: row %s" % (cid, g["pk"], rows.get(cid))))
                     for cid, (pp, _) in rows.items():
                         if pp == g["pk"] and cid not in want:
                             problems.append(("flushed-row-differs-from-merged-state", "child %d still belongs to parent %d after it was merged out" % (cid, g["pk"])))
+    except IntegrityError as e:
+        if not af:
+            raise
+        problems.append(("flush-integrity-error", "autoflush session: %s" % str(e.orig)[:120]))
     finally:
         try:
             sess.close()
@@ -534,9 +882,11 @@ def enc_op(op):
     return ":".join(str(int(x)) if isinstance(x, bool) else str(x) for x in op)
 
 
-def request(case, nexec=None, final_flush=1):
-    ops = case["ops"] if nexec is None else case["ops"][:nexec]
-    return "merge run %d %d %s" % (case["n"], final_flush, ",".join(enc_op(o) for o in ops) or "-")
+def request(case, xops=None, final_flush=1):
+    """xops: the ops as executed (an autoflush history runs every merge twice; a history that
+    ran into a flush conflict ends early); default: the generated ops"""
+    ops = case["ops"] if xops is None else xops
+    return "merge run %d %d %d %s" % (case["n"], int(case.get("af", 0)), final_flush, ",".join(enc_op(o) for o in ops) or "-")
 
 
 # ---------------------------------------------------------------------- generators
@@ -549,14 +899,21 @@ def rand_src(rng, n):
 
 def gen_flat(rng, tier):
     n = rng.choice([1, 2, 3])
+    # the Session's autoflush option; pending deletes (`del`) in both kinds of session
+    af = 1 if rng.random() < 0.55 else 0
+    pdel = 0.09 if rng.random() < 0.6 else 0.0
     ops = []
+    deleted = set()
     for k in range(n):
         if rng.random() < 0.6:
             ops.append(("ins", k, rng.randint(1, 9), rng.randint(1, 9)))
     for _ in range(rng.randint(3, 9 if tier == "quick" else 16)):
         r = rng.random()
         k = rng.randrange(n)
-        if r < 0.12:
+        if r < pdel:
+            ops.append(("del", k, rng.choice([0, 0, 0, 1, 2])))
+            deleted.add(k)
+        elif r < 0.12 + pdel:
             ops.append(("load", k, rng.choice([0, 0, 1, 2])))
         elif r < 0.24:
             ops.append(("set", k, rng.choice([0, 0, 1, 2]), rng.random() < 0.5, rng.randint(10, 19)))
@@ -566,16 +923,18 @@ def gen_flat(rng, tier):
             ops.append(("flush",))
         else:
             src = rand_src(rng, n)
-            # load=False only for identities whose row was inserted before: an instance merged
-            # without a row and modified later cannot be flushed (StaleDataError), not our subject
-            has_row = any(o[0] == "ins" and o[1] == src["pk"] for o in ops)
+            # load=False only for identities whose row was inserted before (and never deleted):
+            # an instance merged without a row and modified later cannot be flushed
+            # (StaleDataError), not our subject
+            has_row = any(o[0] == "ins" and o[1] == src["pk"] for o in ops) and src["pk"] not in deleted
             load = 1 if (rng.random() < 0.65 or not has_row) else 0
             ops.append(("m", load, src))
-    return n, ops
+    return n, af, ops
 
 
 def gen_graph(rng):
     npar, nch, nk = rng.choice([1, 2]), rng.choice([2, 3, 4]), 2
+    af = 1 if rng.random() < 0.55 else 0
     dbk = {k: rng.randint(0, 9) for k in range(nk) if rng.random() < 0.7}
     dbp = {p: rng.randint(0, 9) for p in range(npar) if rng.random() < 0.7}
     dbpk = {p: rng.choice(list(dbk) + [None]) if dbk else None for p in dbp}
@@ -612,11 +971,32 @@ def gen_graph(rng):
             ck = dbpk.get(pk)
             g["cart"] = rng.choice([None, "null" if ck is None else {"pk": ck, "v": rng.choice([None, dbk[ck]]), "persistent": True}])
             g["load"] = 0
+        # unflushed work in an autoflush Session right before this merge: pending children whose
+        # id has no row (mostly ids the graph also lists, as transient children), pending deletes
+        # of the Session's instance of the graph's parent / one of its children / its cart
+        if af and g["load"] and rng.random() < 0.6:
+            pre = []
+            free = [c for c in range(nch + 1) if c not in dbc]
+            listed = [ck["pk"] for ck in (g["kids"] or []) if not ck["persistent"] and ck["pk"] not in dbc]
+            for _ in range(rng.choice([0, 1, 1, 2])):
+                pool = listed if (listed and rng.random() < 0.7) else free
+                if pool:
+                    pre.append(("padd", rng.choice(pool), rng.randint(4, 9)))
+            r = rng.random()
+            if r < 0.25:
+                pre.append(("pdel", "P", rng.choice([pk, pk, rng.randrange(npar)])))
+            elif r < 0.40:
+                pre.append(("pdel", "C", rng.randrange(nch)))
+            elif r < 0.50:
+                pre.append(("pdel", "K", rng.randrange(nk)))
+            rng.shuffle(pre)
+            g["pre"] = pre
         graphs.append(g)
-    return {"dbk": dbk, "dbp": dbp, "dbpk": dbpk, "dbc": dbc, "preload": [p for p in range(npar) if rng.random() < 0.5], "graphs": graphs, "src": "graph"}
+    return {"af": af, "dbk": dbk, "dbp": dbp, "dbpk": dbpk, "dbc": dbc, "preload": [p for p in range(npar) if rng.random() < 0.5], "graphs": graphs, "src": "graph"}
 
 
 def small_scope():
+    """(af, ops)"""
     import itertools
 
     srcs = []
@@ -633,18 +1013,32 @@ def small_scope():
                 for l2 in (1, 0):
                     if not pre and (l1 == 0 or l2 == 0):
                         continue
-                    yield pre + [("m", l1, s1), ("m", l2, s2), ("flush",), ("m", 1, s1)]
+                    yield 0, pre + [("m", l1, s1), ("m", l2, s2), ("flush",), ("m", 1, s1)]
+    # unflushed session state x autoflush option: every source merged (load=True, and load=False
+    # where a row backs it) into a session that holds the identity clean / modified / marked
+    # deleted / modified and marked deleted / pending, then a second source, flush, first again
+    for af in (1, 0):
+        for pre in ([("ins", 0, 1, 2), ("load", 0, 0), ("del", 0, 0)],
+                    [("ins", 0, 1, 2), ("load", 0, 0), ("set", 0, 0, False, 11), ("del", 0, 0)],
+                    [("ins", 0, 1, 2), ("load", 0, 1), ("del", 0, 1)],
+                    [("m", 1, srcs[5])],
+                    [("ins", 0, 1, 2), ("load", 0, 0), ("set", 0, 0, True, 12)]):
+            for s1, s2 in itertools.product(srcs, repeat=2):
+                for l1 in (1, 0):
+                    if l1 == 0 and pre[0][0] != "ins":
+                        continue
+                    yield af, pre + [("m", l1, s1), ("m", 1, s2), ("flush",), ("m", 1, s1)]
 
 
 def gen_cases(ctx, deep=False):
     thorough = ctx.tier == "thorough" or deep
-    for _ in range(8000 if thorough else 1500):
-        n, ops = gen_flat(ctx.rng, ctx.tier)
-        yield {"n": n, "ops": ops, "src": "flat"}
-    for seq in small_scope():
-        if thorough or ctx.rng.random() < 0.25:
-            yield {"n": 1, "ops": seq, "src": "small"}
-    for _ in range(4000 if thorough else 700):
+    for _ in range(8000 if thorough else 1100):
+        n, af, ops = gen_flat(ctx.rng, ctx.tier)
+        yield {"n": n, "af": af, "ops": ops, "src": "flat"}
+    for af, seq in small_scope():
+        if thorough or ctx.rng.random() < (0.12 if af == 0 else 0.2):
+            yield {"n": 1, "af": af, "ops": seq, "src": "small"}
+    for _ in range(4000 if thorough else 600):
         yield gen_graph(ctx.rng)
 
 
@@ -656,7 +1050,8 @@ def jsonable(case):
 
 def unjson(c):
     if c.get("src") == "graph":
-        return dict(c, dbp={int(k): v for k, v in c["dbp"].items()}, dbc={int(k): tuple(v) for k, v in c["dbc"].items()},
+        graphs = [dict(g, pre=[tuple(p) for p in g["pre"]]) if g.get("pre") else g for g in c["graphs"]]
+        return dict(c, graphs=graphs, dbp={int(k): v for k, v in c["dbp"].items()}, dbc={int(k): tuple(v) for k, v in c["dbc"].items()},
                     dbk={int(k): v for k, v in c.get("dbk", {}).items()}, dbpk={int(k): v for k, v in c.get("dbpk", {}).items()})
     return dict(c, ops=[tuple(o) for o in c["ops"]])
 
@@ -665,10 +1060,10 @@ def check_case(case):
     """returns (line, problems, executed ops, final flush done)"""
     if case["src"] == "graph":
         r = run_graph(case)
-        return r[0], r[1], 0, 1
+        return r[0], r[1], [], 1
     r = run_flat(case)
     if len(r) == 2:  # crashed
-        return r[0], r[1], len(case["ops"]), 1
+        return r[0], r[1], list(case["ops"]), 1
     return r
 
 
@@ -686,35 +1081,51 @@ def _budget_exhausted(ctx, t0, n):
 
 def run(ctx, deep=False):
     ctx.rule = (
-        "stream A: histories of insert-row/load/set/flush and merge(load=True|False) of detached or transient sources with every combination of "
-        "loaded attributes, 1-3 identities, random (seeded) + exhaustive two-merge combinations over 9 sources x 5 prior states x load flags (25% quick, "
-        "all thorough), compared with the Lean model; stream B: Parent/children graphs with partially loaded attributes and collections, duplicate "
-        "identities in one collection, preloaded or not, oracle only; non-trivial = at least one merge executed"
+        "both streams: Session(autoflush=True|False), about half each. stream A: histories of insert-row/load/set/Session.delete (pending)/flush and "
+        "merge(load=True|False) of detached or transient sources with every combination of loaded attributes, 1-3 identities, 3 identity tokens; in "
+        "autoflush histories merges of pending and deleted-marked identities are executed and every merge is re-merged as an operation of its own; random "
+        "(seeded) + exhaustive two-merge combinations over 9 sources x 5 prior states x load flags (autoflush off) and over 9 sources x 5 unflushed prior "
+        "states (marked deleted, modified+deleted, deleted under a token, pending, modified) x autoflush on/off (12-20% quick, all thorough), compared "
+        "with the Lean model; stream B: Parent/children/cart graphs with partially loaded attributes and collections, duplicate identities in one "
+        "collection, preloaded or not, in autoflush sessions preceded by pending children (Session.add, ids mostly also listed as transient children) and "
+        "pending Session.delete of the parent / a child / the cart, oracle only; non-trivial = at least one merge executed"
     )
     import time
 
     t0 = time.time()
     cases, impl_out, reqs = [], [], []
+    nviol = {}  # per stream: a broken tree fails in many histories; keep room for the other stream
     for case in gen_cases(ctx, deep):
         if _budget_exhausted(ctx, t0, len(cases)):
             break
-        line, problems, nexec, ff = check_case(case)
+        stream = "graph" if case["src"] == "graph" else "flat"
+        if nviol.get(stream, 0) >= 12:
+            continue
+        line, problems, xops, ff = check_case(case)
         jc = jsonable(case)
         ctx.case(jc, nontrivial=(case["src"] == "graph" or "M" in line))
         ctx.count("src=" + case["src"])
+        ctx.count("autoflush=%d" % case.get("af", 0))
+        if case["src"] == "graph":
+            for g in case["graphs"]:
+                for pre in g.get("pre") or []:
+                    ctx.count("graph-pre=" + pre[0])
+        else:
+            if any(o[0] == "del" for o in case["ops"]):
+                ctx.count("flat-with-pending-delete")
         for key, detail in problems:
             ctx.violation(key, jc, detail)
+        nviol[stream] = nviol.get(stream, 0) + len(problems)
         if case["src"] != "graph":
             cases.append(jc)
             impl_out.append(line)
-            reqs.append(request(case, nexec, ff))
-        if len(ctx.violations) >= 25:
-            break
+            reqs.append(request(case, xops, ff))
         if case["src"] == "flat" and len(ctx.samples) < 3:
             ctx.sample({"case": jc, "impl": line})
     if ctx.driver_ok():
         ctx.correspond("corr/c45:session.merge-vs-Model.Merge", cases, impl_out, ctx.driver(reqs))
-        bad = ["merge run 1 1 m:1:3:0:N:N:1:0", "merge run 1 1 m:2:0:0:N:N:1:0", "merge run x 1 -", "merge run 1 1 load:0", "merge run 1 1 m:1:0:1:N:N:0:0"]
+        bad = ["merge run 1 0 1 m:1:3:0:N:N:1:0", "merge run 1 1 1 m:2:0:0:N:N:1:0", "merge run x 0 1 -", "merge run 1 0 1 load:0", "merge run 1 1 1 m:1:0:1:N:N:0:0",
+               "merge run 1 2 1 -", "merge run 1 1 -", "merge run 1 1 1 del:0", "merge run 1 1 1 del:1:0", "merge run 1 0 1 del:0:3"]
         ctx.correspond("corr/c45:malformed-rejected", [{"req": b} for b in bad], ["bad-op"] * len(bad), ctx.driver(bad))
 
 
